@@ -15,7 +15,7 @@ register("C16",
                    _H + "push_spec", _H + "pop_spec", _H + "peek_spec", _H + "decreaseKey_spec", _H + "decreaseKey_valueError",
                    _H + "remove_spec", _H + "extractMin_spec", _H + "consolidate_spec", _H + "consolidate_ok",
                    _H + "total_intMin", _H + "total_intMax"],
-         streams=["heap", "heapsel"],
+         streams=["heap", "heapsel", "heap_O"],
          assumptions=["keys are compared by a total preorder (Total cmp); proved for int keys and ReversedComparator(int)",
                       "decrease_key / remove are only applied to nodes that are in the heap (documented precondition)",
                       "nobody sets HeapNode.deleted on a node that is still in the heap (documented warning)"],
